@@ -317,9 +317,9 @@ pub fn run_case(id: &str, toks: &[&str]) -> String {
         }
         out.extend(got);
         out.push("r0".to_string()); // CR
-        exec_ops(&dir, &link, t0, &ops[cr + 1..], &mut |o| out.push(o));
+        exec_ops(&dir, &link, t0, &ops[cr + 1..], true, &mut |o| out.push(o));
     } else {
-        exec_ops(&dir, &link, t0, ops, &mut |o| out.push(o));
+        exec_ops(&dir, &link, t0, ops, true, &mut |o| out.push(o));
     }
     let _ = std::fs::remove_dir_all(&dir);
     let _ = std::fs::remove_file(&link);
@@ -334,15 +334,17 @@ pub fn run_segment(args: &[String]) {
     let t0: i64 = args[2].parse().unwrap();
     let ops: Vec<&str> = args[3..].iter().map(String::as_str).collect();
     let stdout = std::io::stdout();
-    exec_ops(&dir, &link, t0, &ops, &mut |o| {
+    exec_ops(&dir, &link, t0, &ops, false, &mut |o| {
         let mut g = stdout.lock();
         let _ = writeln!(g, "@ {o}");
         let _ = g.flush();
     });
+    // the kill point was not reached: the process is killed now, nothing is dropped or flushed
+    std::process::exit(0);
 }
 
 /// Runs operations on the given directory (which is left as it is).
-pub fn exec_ops(dir: &Path, link: &Path, t0: i64, ops: &[&str], emit: &mut dyn FnMut(String)) {
+pub fn exec_ops(dir: &Path, link: &Path, t0: i64, ops: &[&str], drop_at_end: bool, emit: &mut dyn FnMut(String)) {
     let dir = dir.to_path_buf();
     let link = link.to_path_buf();
     reset_table();
@@ -523,10 +525,14 @@ pub fn exec_ops(dir: &Path, link: &Path, t0: i64, ops: &[&str], emit: &mut dyn F
         emit(o);
     }
     if let Some(l) = live.take() {
-        let _ = catch_unwind(AssertUnwindSafe(move || {
-            drop(l.handle);
-            drop(l.arc);
-        }));
+        if drop_at_end {
+            let _ = catch_unwind(AssertUnwindSafe(move || {
+                drop(l.handle);
+                drop(l.arc);
+            }));
+        } else {
+            std::mem::forget(l);
+        }
     }
 }
 
